@@ -20,24 +20,24 @@ import (
 // harness feeds bytes or an error, a deadline passes, or the connection is
 // closed. Deadlines are implemented here, so liveness timeouts can be observed.
 type fakeConn struct {
-	id       int
-	stream   bool // length-prefixed stream (a Read may return part of a chunk) vs. datagrams
-	mu       sync.Mutex
-	cond     *sync.Cond
-	rq       [][]byte
-	rerr     error
-	closed   bool
-	rdl      time.Time
-	created  time.Time
-	onWrite  func(c *fakeConn, p []byte) error
-	writes   [][]byte
-	readsBlk int // readers currently blocked
-	nReads   int // Read calls that returned data or error
-	closeCnt int
-	rdlHist  []time.Duration // every SetReadDeadline, relative to the moment it was set
-	rdlSetAt []time.Time
+	id                   int
+	stream               bool // length-prefixed stream (a Read may return part of a chunk) vs. datagrams
+	mu                   sync.Mutex
+	cond                 *sync.Cond
+	rq                   [][]byte
+	rerr                 error
+	closed               bool
+	rdl                  time.Time
+	created              time.Time
+	onWrite              func(c *fakeConn, p []byte) error
+	writes               [][]byte
+	readsBlk             int // readers currently blocked
+	nReads               int // Read calls that returned data or error
+	closeCnt             int
+	rdlHist              []time.Duration // every SetReadDeadline, relative to the moment it was set
+	rdlSetAt             []time.Time
 	blockSetReadDeadline chan struct{} // if non-nil, SetReadDeadline blocks on it (schedule point)
-	scale    int           // if > 1, deadlines are shortened by this factor (the recorded history keeps the requested durations)
+	scale                int           // if > 1, deadlines are shortened by this factor (the recorded history keeps the requested durations)
 }
 
 func newFakeConn(id int, stream bool) *fakeConn {
@@ -346,4 +346,3 @@ func probe09(rsv func() (transport.ReservedExchanger, bool)) int {
 	}
 	return len(got)
 }
-
